@@ -56,6 +56,16 @@ def inj_aggr(kind):
     return f
 
 
+def inj_big_literal(spec, r):
+    names = S.feature_names(spec)
+    a = r.choice(names)
+    fa = next(x for x in S.features(spec["root"]) if x["name"] == a)
+    if not any(at["name"] == "cost" for at in fa.get("attrs", [])):
+        fa.setdefault("attrs", []).append({"name": "cost", "value": 9007199254740993})
+    spec["ctcs"].append({"name": "x", "ast": [r.choice(S.COMPARE), a + ".cost", r.choice([9007199254740993, 2 ** 63 - 1, 18014398509481985])]})
+    return spec
+
+
 def classes():
     from . import roundtrip as RT
     c = [x for x in RT.UVL().classes() if not x[0].startswith("ctc:") and x[0] not in ("name:uvl-keyword",)]
@@ -66,6 +76,7 @@ def classes():
     c += [("ctc:arith:" + o, inject.inj_ctc_uvl("arith:" + o)) for o in S.ARITH]
     c += [("ctc:" + k, inject.inj_ctc_uvl(k)) for k in ("arith:nested", "cmp:string", "cmp-under-logic")]
     c += [("ctc:aggr:" + a, inj_aggr(a)) for a in S.AGGR]
+    c += [("ctc:big-int-literal", inj_big_literal)]
     c += [("name:uvl-keyword", inject.inj_rename("name:uvl-keyword", inject.UVL_KEYWORDS))]
     return c
 
@@ -127,12 +138,25 @@ def judge_positive(acc, spec, tags, knobs, chosen, work, idx):
     payload = {"kind": "positive", "text": text, "spec": spec, "tags": tags, "knobs": knobs.describe()}
     for t in tags:
         acc.count("class:" + t)
+    from flamapy.metamodels.fm_metamodel.transformations import UVLReader
     try:
-        m = read(path)
+        rd = UVLReader(path)
+        m = rd.transform()
     except Exception as e:  # noqa: BLE001
         acc.fail(cls, "valid-document-is-read", "UVLReader", [], f"raises:{type(e).__name__}",
                  f"{type(e).__name__}: {str(e)[:160]}", payload, key)
         return
+    if idx % 3 == 0:
+        # history: the same reader object asked again yields the same model
+        try:
+            again = S.observe(rd.transform())
+            if again != S.observe(m):
+                acc.fail(cls, "same-reader-asked-again", "UVLReader", [], "model-differs-on-second-transform",
+                         RT_first_diff(S.observe(m), again), payload, key)
+                return
+        except Exception as e:  # noqa: BLE001
+            acc.fail(cls, "same-reader-asked-again", "UVLReader", [], f"raises:{type(e).__name__}", str(e)[:160], payload, key)
+            return
     probs, _ = wf.problems(m)
     if probs:
         acc.fail(cls, "well-formed", "UVLReader", [], "not-wellformed", "; ".join(probs[:3]), payload, key)
